@@ -275,15 +275,18 @@ def Leader.sendData (L : Leader β) (rid : Id) (off : Int) (ch : List Nat) : Rep
 
 /-- the leader's state as `ServiceReplica`/`Handle` read it during ONE request. The
     leader's own input may switch run id, re-read or replace the cache between the reads:
-    `l1` = gate, `start`, `selfInspection` (input ids, channel id); `l2` = input ids again,
-    `StartPoint(nil)`; `l3` = `IsValidOffset`; `l4` = `NewReader` and what it streams. -/
+    `l1` = gate, `start`, selfInspection's `input.RunIds()`; `l1b` = selfInspection's
+    `channel.RunId()`; `l2` = Handle's own `input.RunIds()`; `l2b` = `StartPoint(nil)`;
+    `l3` = `IsValidOffset`; `l4` = `NewReader` and what it streams. -/
 structure View (β : Type) where
   l1 : Leader β
+  l1b : Leader β
   l2 : Leader β
+  l2b : Leader β
   l3 : Leader β
   l4 : Leader β
 
-def View.const (L : Leader β) : View β := ⟨L, L, L, L⟩
+def View.const (L : Leader β) : View β := ⟨L, L, L, L, L, L⟩
 
 /-- `ServiceReplica` + `ReplicaLeader.Handle` for the request `(rid, roff)`; `ch` are the
     sizes of the successive `ioReader.Read` results. -/
@@ -295,14 +298,14 @@ def View.handle (v : View β) (rid : Id) (roff : Int) (ch : List Nat) : Reply β
   | i0 :: _ =>
     -- selfInspection answers "wait a moment" with CLEAR when the channel's id is not the
     -- input's newest — and returns no error, so Handle goes on after it
-    let pre : List (Msg β) := if i0 ≠ v.l1.cur then [ctl .clear] else []
+    let pre : List (Msg β) := if i0 ≠ v.l1b.cur then [ctl .clear] else []
     let rp : Reply β :=
       if rid = "" || rid = "?" then
-        ⟨[⟨.info, v.l2.cur, false, latest v.l2.data, 0, []⟩], .eof, ch⟩
+        ⟨[⟨.info, v.l2b.cur, false, latest v.l2b.data, 0, []⟩], .eof, ch⟩
       else if v.l2.inputIds.head? ≠ some rid then ⟨[ctl .error], .err .plain, ch⟩
-      else if roff - latest v.l2.data > 0 then
-        ⟨[⟨.handover, v.l2.cur, false, latest v.l2.data, 0, []⟩], .err .role, ch⟩
-      else v.l4.sendData rid (if v.l3.valid rid roff then roff else latest v.l2.data) ch
+      else if roff - latest v.l2b.data > 0 then
+        ⟨[⟨.handover, v.l2b.cur, false, latest v.l2b.data, 0, []⟩], .err .role, ch⟩
+      else v.l4.sendData rid (if v.l3.valid rid roff then roff else latest v.l2b.data) ch
     ⟨pre ++ rp.msgs, rp.fin, rp.rest⟩
 
 /-- a leader that does not change during the request -/
